@@ -141,8 +141,15 @@ func LoadEngine(pkgRel string, overlay map[string][]byte) (*Engine, error) {
 }
 
 // standard-library packages whose (bare) package initialisers are safe and needed
+// Their init functions are run "tolerantly": an instruction the engine cannot execute (a
+// runtime hook without a body, reflectlite, ...) is skipped with a zero result instead of ending
+// the path, so that the plain package-level variables (context.Canceled, sync.expunged, io.EOF,
+// ...) exist when library code reached from the repository uses them.
 var initPackagesExtra = map[string]bool{
-	"errors": false,
+	"errors":  true,
+	"io":      true,
+	"sync":    true,
+	"context": true,
 }
 
 type Worker struct {
@@ -218,6 +225,11 @@ func (w *Worker) RunPath(entry *ssa.Function, prefix []Dec) (r *Run) {
 	for _, p := range w.eng.initOrder {
 		if f := p.Func("init"); f != nil && f.Blocks != nil {
 			r.pushFrame(main, f, nil, nil, nil)
+			if initPackagesExtra[p.Pkg.Path()] {
+				r.runTolerantInit(main)
+				main.done = false
+				continue
+			}
 			r.runThread(main)
 			if len(main.frames) != 0 {
 				r.abort(OEngineError, "package init of "+p.Pkg.Path()+" did not run to completion")
@@ -234,6 +246,45 @@ func (w *Worker) RunPath(entry *ssa.Function, prefix []Dec) (r *Run) {
 		r.witness.Observed = r.evalObserved(r.witness)
 	}
 	return r
+}
+
+// runTolerantInit runs the init function on top of t's stack to completion; whenever an
+// instruction (in it or in anything it calls) cannot be executed, the stack is cut back to the
+// init frame and that instruction of the init function is skipped, its result being the zero value.
+func (r *Run) runTolerantInit(t *Thread) {
+	base := len(t.frames)
+	for guard := 0; guard < 10000 && len(t.frames) >= base; guard++ {
+		func() {
+			defer func() {
+				if e := recover(); e != nil {
+					_, isAbort := e.(abortRun)
+					_, isPanic := e.(goPanicSignal)
+					if !(isAbort && r.outcome == OEngineError) && !isPanic {
+						panic(e)
+					}
+					r.outcome, r.errMsg = ODone, ""
+					t.panic = nil
+					t.frames = t.frames[:base]
+					fr := t.top()
+					if fr.pc < len(fr.block.Instrs) {
+						if v, ok := fr.block.Instrs[fr.pc].(ssa.Value); ok {
+							func() {
+								defer func() { recover() }()
+								r.set(fr, v, r.zero(v.Type()))
+							}()
+						}
+						fr.pc++
+					}
+				}
+			}()
+			for len(t.frames) >= base && r.stepNoRecover(t) {
+			}
+		}()
+		if t.done || len(t.frames) < base {
+			break
+		}
+	}
+	t.frames = t.frames[:base-1]
 }
 
 // ---- explorer ----
